@@ -169,7 +169,8 @@ InChoice == GChoice(<<GAlt("p", <<>>, GBool), GAlt("q", <<>>, GStr("ia5", Sizes[
 InEnum == GEnum(<< <<"r1", FALSE, 0>>, <<"r2", FALSE, 0>> >>, 0 - 1)
 \* a small pool for components / elements, each with a literal usable as DEFAULT (or <<>>)
 Small == << [t |-> Ints[2], lit |-> <<LitInt(5)>>], [t |-> GBool, lit |-> <<LitBool(TRUE)>>],
-            [t |-> GStr("utf8", GNoSz), lit |-> <<LitStr(<<97, 98>>)>>], [t |-> GOct(Sizes[3]), lit |-> <<>>],
+            \* a\n{' - characters that mean something in Rust source / format strings and nothing in ASN.1 (no escapes there)
+            [t |-> GStr("utf8", GNoSz), lit |-> <<LitStr(<<97, 92, 110, 123, 39>>)>>], [t |-> GOct(Sizes[3]), lit |-> <<>>],
             [t |-> Ints[5], lit |-> <<LitInt(0 - 3)>>], [t |-> GNull, lit |-> <<>>],
             [t |-> GRef("D1"), lit |-> <<>>], [t |-> GRef("E1"), lit |-> <<LitEnum("E1", "v2")>>],
             [t |-> GStr("ia5", Sizes[3]), lit |-> <<LitStr(<<120>>)>>], [t |-> Ints[10], lit |-> <<LitInt(0 - 3)>>],
@@ -247,7 +248,10 @@ GMixType(q, d) ==
           IN GSeqOf(GPick(q, 4, 2) = 1, e.t, <<Sizes[1], Sizes[3], Sizes[4]>>[GPick(q, 5, 3)])
 FMix == [q \in 1..(60 * K) |-> GMixType(q + 300, 0)]
 
-AllTypes == FLeaf \o FList \o FSeq1 \o FSeq2 \o FSeq3 \o FChoice \o FMix
+\* no component at all: SEQUENCE { }, and extensible without a root component: SEQUENCE { ... } / SET { ... }
+\* (extAfter = 0 with an empty list is how the model says "extensible"; a marker in front of components is outside the subset)
+FSeq0 == << GSeq(FALSE, <<>>, 0 - 1), GSeq(FALSE, <<>>, 0), GSeq(TRUE, <<>>, 0), GSeq(TRUE, <<>>, 0 - 1) >>
+AllTypes == FLeaf \o FList \o FSeq1 \o FSeq2 \o FSeq3 \o FChoice \o FMix \o FSeq0
 DefTags == << <<>>, <<1, 3>>, <<2, 5>> >>
 \* definition i: type i of AllTypes, its definition-level tag cycling through DefTags
 DefOf(i) == GDef(Name("T", i), DefTags[(i % Len(DefTags)) + 1], AllTypes[i])
